@@ -76,6 +76,17 @@ def check_block(models, what):
     txids = [W.txid(m) for m in models]
     wtxids = [W.wtxid(m) for m in models]
     want = W.merkle_root(txids)
+    # a block deserialisation that fails half-way comes first (truncated inside the transaction list; a declared count with
+    # no transactions behind it): whatever it raises, the constructions below are not affected
+    encb = W.encode_block(dict(_hdr(want), vtx=models))
+    for cut in (len(encb) - 1, 81 + (len(encb) - 81) // 2, 81):
+        try:
+            CBlock.deserialize(encb[:cut])
+            raise Viol('%s: truncated block encoding accepted' % what, 'exception', None)
+        except Viol:
+            raise
+        except Exception:  # noqa
+            pass
     blk, txs = build_block(models)
     if blk.hashMerkleRoot != want:
         raise Viol('%s: all-zero declared root was not filled with the computed root' % what, want, blk.hashMerkleRoot)
@@ -231,6 +242,13 @@ class WrongRoots(Family):
         bad = bytes(bad)
         if bad == b'\x00' * 32:
             return 'skip', False
+        # a failed block deserialisation right before (truncated in the transaction list)
+        from bitcoin.core import CBlock
+        encb = W.encode_block(dict(_hdr(want), vtx=models))
+        try:
+            CBlock.deserialize(encb[:-3])
+        except Exception:  # noqa
+            pass
         try:
             blk, _ = build_block(models, bad)
         except CheckBlockError:
@@ -382,5 +400,66 @@ class OneListObject(Family):
         return 'ok', True, steps
 
 
+class NonCanonicalBlocks(Family):
+    """blocks deserialised from accepted non-canonical encodings (a transaction in marker/flag form whose stacks are all
+    empty; the transaction count / an input count in a longer CompactSize form): trees, roots and weight are those of the
+    transactions the block holds, i.e. of their canonical re-serialisation"""
+    name = 'blocks_from_noncanonical_encodings'
+    nontrivial_rule = 'every case'
+
+    def cases(self, shard, tier):
+        for n in (2, 3, 4):
+            for where in range(1, n):
+                for kind in ('empty_witness_section', 'long_input_count', 'long_tx_count'):
+                    for wit in (False, True):
+                        yield (n, where, kind, wit)
+
+    def check(self, case):
+        from bitcoin.core import CBlock, NoWitnessData
+        n, where, kind, wit = case
+        models = [coinbase(wit)] + [pool_tx(i, wit and i % 2 == 0) for i in range(1, n)]
+        if kind == 'empty_witness_section':
+            models[where]['wit'] = None
+        txids = [W.txid(m) for m in models]
+        root = W.merkle_root(txids)
+        parts = [W.encode_tx(m) for m in models]
+        count = W.compact_size(n)
+        if kind == 'empty_witness_section':
+            m = models[where]
+            plain = W.encode_tx(m)
+            parts[where] = plain[:4] + b'\x00\x01' + plain[4:-4] + b'\x00' * len(m['vin']) + plain[-4:]
+        elif kind == 'long_input_count':
+            p = parts[where]
+            off = 6 if p[4:6] == b'\x00\x01' else 4
+            parts[where] = p[:off] + b'\xfd' + bytes([p[off], 0]) + p[off + 1:]
+        else:
+            count = b'\xfd' + bytes([n, 0])
+        enc = W.encode_header(_hdr(root)) + count + b''.join(parts)
+        try:
+            blk = CBlock.deserialize(enc)
+        except Exception:  # noqa
+            return 'refused', False          # refusing a non-canonical encoding is allowed
+        canon = W.encode_block(dict(_hdr(root), vtx=models))
+        if blk.serialize() != canon:
+            raise Viol('block parsed from a %s encoding does not re-serialise canonically' % kind, canon[:120], blk.serialize()[:120])
+        if blk.calc_merkle_root() != root or list(blk.vMerkleTree) != W.merkle_tree(txids):
+            raise Viol('block parsed from a %s encoding: merkle root / tree' % kind, root.hex(), blk.calc_merkle_root().hex())
+        wl = [b'\x00' * 32] + [W.wtxid(m) for m in models[1:]]
+        anyw = any(W.has_witness(m) for m in models)
+        try:
+            wr = blk.calc_witness_merkle_root()
+        except NoWitnessData:
+            wr = None
+        if (wr is not None) != anyw or (anyw and (wr != W.merkle_root(wl) or list(blk.vWitnessMerkleTree) != W.merkle_tree(wl))):
+            raise Viol('block parsed from a %s encoding: witness merkle root / tree are not those of the transactions it holds' % kind, W.merkle_root(wl).hex() if anyw else None, None if wr is None else bytes(wr).hex())
+        sw = 3 * len(W.encode_block(dict(_hdr(root), vtx=models), witness=False)) + len(canon)
+        if blk.GetWeight() != sw:
+            raise Viol('block parsed from a %s encoding: GetWeight()' % kind, sw, blk.GetWeight())
+        for t, m in zip(blk.vtx, models):
+            if t.GetHash() != W.wtxid(m) or t.GetTxid() != W.txid(m):
+                raise Viol('transaction of a block parsed from a %s encoding reports other identifiers than its fields have' % kind, W.wtxid(m).hex(), t.GetHash().hex())
+        return kind, True
+
+
 def families(tier):
-    return [Counts(), Patterns(), WrongRoots(), Weights(), BigBlockWeight(), OneListObject()]
+    return [Counts(), Patterns(), WrongRoots(), Weights(), BigBlockWeight(), OneListObject(), NonCanonicalBlocks()]
